@@ -23,11 +23,17 @@ if [ ! -f "$B/libpikasim.so" ] || [ "$V/sim/sim.cpp" -nt "$B/libpikasim.so" ] ||
 fi
 
 # 2. instrumented pika
+# The moodycamel queue's thread-exit listener (producer records of exited threads are recycled) is compiled in
+# wherever thread_local is supported; its feature test misreads clang (which reports itself as GCC 4.2), so it is
+# switched on explicitly: the simulated build has the feature set of the usual gcc build.
+PIKAFLAGS="$SIMFLAGS -DPIKA_VERIF_SIM -DMOODYCAMEL_CPP11_THREAD_LOCAL_SUPPORTED -Wno-unused-command-line-argument -g"
+if [ -d "$B/pika-sim" ] && [ "$(cat "$B/pika-sim.flags" 2>/dev/null)" != "$PIKAFLAGS" ]; then rm -rf "$B/pika-sim" "$B/harness"; fi
+echo "$PIKAFLAGS" > "$B/pika-sim.flags"
 if [ ! -f "$B/pika-sim/build.ninja" ]; then
   cmake -G Ninja -S "$REPO" -B "$B/pika-sim" -DCMAKE_CXX_COMPILER=clang++-14 -DCMAKE_BUILD_TYPE=Release \
     -DPIKA_WITH_MALLOC=system -DPIKA_WITH_TESTS=OFF -DPIKA_WITH_EXAMPLES=OFF -DPIKA_WITH_UNITY_BUILD=ON \
     -DPIKA_WITH_MPI=ON -Dfmt_DIR=/usr/lib/x86_64-linux-gnu/cmake/fmt \
-    -DCMAKE_CXX_FLAGS="$SIMFLAGS -DPIKA_VERIF_SIM -Wno-unused-command-line-argument -g" \
+    -DCMAKE_CXX_FLAGS="$PIKAFLAGS" \
     -DCMAKE_SHARED_LINKER_FLAGS="-fno-sanitize=thread -L$B -lpikasim" \
     -DCMAKE_EXE_LINKER_FLAGS="-fno-sanitize=thread -L$B -lpikasim" >>"$LOG" 2>&1 || fail "cmake configure"
 fi
